@@ -249,6 +249,11 @@ pub fn hevc_annexb_to_hvcc(data: &[u8]) -> Vec<u8> {
 
 /// Check if the given Annex B data represents an HEVC keyframe (IRAP).
 pub fn is_hevc_keyframe(data: &[u8]) -> bool {
+    // Empty input is not a keyframe; it must not trip the (always-on) invariant below.
+    if data.is_empty() {
+        return false;
+    }
+
     assert_invariant!(
         !data.is_empty(),
         "INV-503: HEVC keyframe detection requires non-empty data"
@@ -268,6 +273,11 @@ pub fn is_hevc_keyframe(data: &[u8]) -> bool {
         if is_hevc_keyframe_nal_type(nal_type) {
             return true;
         }
+    }
+
+    // Input without any start code contains no NAL unit: not a keyframe, not a bug.
+    if AnnexBNalIter::new(data).count() == 0 {
+        return false;
     }
 
     assert_invariant!(
